@@ -274,7 +274,16 @@ func (o *orC04) checkPublished(e *ZKEvent) {
 				}
 				// its threads run, but its source is another member (e.g. the old master, after the
 				// replica missed the switchover): calcActiveNodes looks at the thread state only
-				if sv.Up && sv.HasChannel && sv.IORun && sv.SQLRun && !sv.IOConnecting && sv.Source != m.master && (m.isHA(sv.Source) || m.isCascade(sv.Source)) {
+				running := sv.IORun && sv.SQLRun && !sv.IOConnecting
+				if !running {
+					// ... or ran when this pass looked at it (the pass's own repair has stopped them since)
+					for _, x := range it.sql {
+						if x.Dst == h && x.Src == it.inc && x.Aux == "running" && x.toldOK() {
+							running = true
+						}
+					}
+				}
+				if sv.Up && sv.HasChannel && running && sv.Source != m.master && (m.isHA(sv.Source) || m.isCascade(sv.Source)) {
 					culprit = "replica-streaming-from-another-member-listed"
 				}
 				m.violate("C04", "member_not_replicating", culprit, fmt.Sprintf("%s published %s although %s has not been replicating from the master since before %v, %d membership evaluations ago (inactivation delay %dms)", e.Inc, e.Data, h, first, o.evalCount[h], s.spec.Cfg.InactivationDelayMs))
